@@ -134,6 +134,8 @@ class World:
         self.cur = i
         self.done_calls = 0
         self.unlinked = False
+        if crash_line is not None:
+            return self.call_forked(i, fn, crash_line)
         count = [0]
         target = self.pf.__file__
 
@@ -164,6 +166,77 @@ class World:
         except Exception as e:   # anything else is unexpected and will never match the model
             res = ("exc", type(e).__name__)
         return res
+
+
+def _call_forked(self, i, fn, crash_line):
+    """The operation runs in a forked child that dies by os._exit before the (crash_line+1)-th traced line of pidfile.py:
+    a real process death - nothing is unwound, no buffered data is flushed, no context manager runs - and the parent looks
+    at what is left on disk.  When the operation completes first, the child reports its result and the instance's fields."""
+    import json
+    rfd, wfd = os.pipe()
+    sys.stdout.flush()
+    sys.stderr.flush()
+    pid = os.fork()
+    if pid == 0:
+        try:
+            os.close(rfd)
+            world = self
+
+            def report(obj):
+                os.write(wfd, json.dumps(obj).encode())
+                os._exit(0)
+            count = [0]
+            target = self.pf.__file__
+
+            def local(frame, event, arg):
+                if event == "line":
+                    count[0] += 1
+                    if count[0] > crash_line:
+                        report(["crash", world.done_calls, world.unlinked])
+                return local
+
+            def glob(frame, event, arg):
+                if frame.f_code.co_filename == target:
+                    return local
+                return None
+            try:
+                sys.settrace(glob)
+                try:
+                    v = fn()
+                finally:
+                    sys.settrace(None)
+                res = ["ok", v]
+            except RuntimeError:
+                res = ["runtime", None]
+            except BaseException as e:
+                res = ["exc", type(e).__name__]
+            inst = self.insts[i]
+            report(res + [inst.fname, inst.pid, self.unlinked])
+        finally:
+            os._exit(1)
+    os.close(wfd)
+    data = b""
+    while True:
+        blk = os.read(rfd, 65536)
+        if not blk:
+            break
+        data += blk
+    os.close(rfd)
+    os.waitpid(pid, 0)
+    if not data:
+        return ("exc", "child-died")
+    obj = json.loads(data)
+    if obj[0] == "crash":
+        self.unlinked = bool(obj[2])
+        return ("crash", obj[1])
+    kind, v, fname, ipid, unl = obj
+    self.insts[i].fname = fname
+    self.insts[i].pid = ipid
+    self.unlinked = bool(unl)
+    return (kind, v)
+
+
+World.call_forked = _call_forked
 
 
 def enc_state(st):
